@@ -1,11 +1,11 @@
 # shared concurrency harness: harness/CONC/conc.cpp (VF_PROP selects the property)
-D = {'QM_STR_CAP': 10, 'QM_LIST_CAP': 4, 'QM_HASH_CAP': 2, 'QM_EVQ_CAP': 4, 'VF_PROP': 4}
+D = {'QM_STR_CAP': 10, 'QM_LIST_CAP': 4, 'QM_HASH_CAP': 2, 'QM_EVQ_CAP': 4, 'VF_PROP': 4, 'VF_NOSEQ': 1, 'VF_SCHED_K': 1}
 REC = {'_ZL9scheduleri': 6, '_ZL13producer_stepi': 6}
-UP = {'resetOwnThread': 6, 'h_conc': 8, 'check_deliveries': 8, 'scheduler': 4}
+UP = {'resetOwnThread': 4, 'h_conc': 8, 'check_deliveries': 8, 'scheduler': 4}
 JOBS = []
 for nm, path in (('reset', 0), ('quit', 1), ('dtor', 2)):
-    JOBS.append(dict(name='stop_' + nm, src='../CONC/conc.cpp', fn='h_conc', defines=dict(D, VF_PROD=1, VF_MSGS=1, VF_ROUNDS=1, VF_DEPTH=1, VF_STOP_PATHS=3, VF_ONLY_PATH=path), unwind=14, unwindset=REC, unwind_patterns=UP, timeout=2400, mem=24, replay='model'))
-JOBS.append(dict(name='stop_no_app', src='../CONC/conc.cpp', fn='h_conc', defines=dict(D, VF_PROD=1, VF_MSGS=1, VF_ROUNDS=1, VF_DEPTH=1, VF_STOP_PATHS=4, VF_ONLY_PATH=3), unwind=14, unwindset=REC, unwind_patterns=UP, timeout=2400, mem=24, replay='model'))
+    JOBS.append(dict(name='stop_' + nm, src='../CONC/conc.cpp', fn='h_conc', defines=dict(D, VF_PROD=1, VF_MSGS=1, VF_ROUNDS=1, VF_DEPTH=1, VF_STOP_PATHS=3, VF_ONLY_PATH=path), unwind=14, unwindset=REC, unwind_patterns=UP, timeout=2400, mem=28, replay='model', cbmc_extra=['--slice-formula']))
+JOBS.append(dict(name='stop_no_app', src='../CONC/conc.cpp', fn='h_conc', defines=dict(D, VF_PROD=1, VF_MSGS=1, VF_ROUNDS=1, VF_DEPTH=1, VF_STOP_PATHS=4, VF_ONLY_PATH=3), unwind=14, unwindset=REC, unwind_patterns=UP, timeout=2400, mem=28, replay='model', cbmc_extra=['--slice-formula']))
 JOBS.append(dict(name='stop_2x1', src='../CONC/conc.cpp', fn='h_conc', tiers=['thorough'], defines=dict(D, VF_PROD=2, VF_MSGS=1, VF_ROUNDS=2, VF_DEPTH=2, VF_STOP_PATHS=3), unwind=14, unwindset=REC, unwind_patterns=UP, timeout=7200, mem=40, replay='model'))
 BOUNDS = {'quick': 'backlog of 0..1 posted messages (1 producer x 1 message, possibly still logging during the stop; thorough: 2 producers), stop by resetOwnThread / aboutToQuit / destructor with a live QCoreApplication; and destructor after the QCoreApplication is gone', 'thorough': 'same'}
 OUTSIDE = 'schedules that are not well nested (two threads suspended inside each other alternately), more threads / messages / rounds, weak memory (sequential consistency assumed), wall-clock bounds (termination = no reachable state in which the stopper spins with no progress possible under fair sleeping)'
